@@ -17,7 +17,7 @@ ALL_SUMMARIES.update(layer2.SUMMARIES)
 def lemma_task(qual, variants, mk_args, removed_arg=None):
     def run(ctx):
         fn, seg, sha = engine.find_function(F, qual)
-        info = {"function": f"{F}::{qual}", "sha256": sha, "lines": [fn.lineno, fn.end_lineno], "variants": [], "kind": "lemma over the contract"}
+        info = {"function": f"{F}::{qual}", "sha256": sha, "lines": engine.abs_lines(fn), "variants": [], "kind": "lemma over the contract"}
         for vname in variants:
             label = f"C07:{qual}[{vname}]"
             ex = Exec(ctx, summaries=dict(layer1.SUMMARIES), module_consts=engine.module_constants(F), fname=label)
@@ -56,7 +56,7 @@ def lemma_add_subcircuit(variants):
     def run(ctx):
         from pyvc.engine import DictV
         fn, seg, sha = engine.find_function(F, qual)
-        info = {"function": f"{F}::{qual}", "sha256": sha, "lines": [fn.lineno, fn.end_lineno], "variants": [], "kind": "lemma over the contract"}
+        info = {"function": f"{F}::{qual}", "sha256": sha, "lines": engine.abs_lines(fn), "variants": [], "kind": "lemma over the contract"}
         for nconn, strip in variants:
             vname = f"connections={nconn},strip_io={strip}"
             label = f"C07:{qual}[{vname}]"
@@ -126,7 +126,7 @@ def setter_on_body(qual, param, shapes):
     unchanged -- proved on the body (the loop invariant: everything but the output attributes is unchanged)."""
     def run(ctx):
         fn, seg, sha = engine.find_function(F, qual)
-        info = {"function": f"{F}::{qual}", "sha256": sha, "lines": [fn.lineno, fn.end_lineno], "variants": [], "kind": "postcondition on the body"}
+        info = {"function": f"{F}::{qual}", "sha256": sha, "lines": engine.abs_lines(fn), "variants": [], "kind": "postcondition on the body"}
         for shape in shapes:
             label = f"C07:{qual}[{shape}, any elements]"
 
